@@ -288,3 +288,9 @@ TEXT["C18"] = {
  "note": "Source-level semantics only: what an optimiser does with __restrict is outside the model and is sampled (-O0/-O2, gcc/clang), not proved.  Observation (DESIGN 8.3): FpBase::negate in place passes `this` as a __restrict operand of BigInt::subtract (harmless for the statement order, proved).  Trusted: translator's location/alias analysis, hand-written memory-level mirror (tied by running), harness.",
  "technique": "Lean 4 proof (memory-level models of the limb loops = functional models for every permitted alias pattern; alias-variant equalities of generated models) + paired differential runs",
 }
+TEXT["C03"]["level"] = TEXT["C03"]["level"].replace("  (e) AArch64 and ARMv6-M:", "  (e) AArch64 and ARMv6-M (models):")
+TEXT["C03"]["level"] += ("  (f) (C03c) ALL-ENTRY-STATE THEOREMS for all eight AArch64 routines (add, subtract, multiply2, 768-bit multiply and square, Montgomery reduction, and the fused fpbase_384_multiply / fpbase_384_square) and for the three small ARMv6-M routines (add, subtract, multiply2 on 32-bit limbs): "
+                         "the regenerated programs, run in the A64 / Thumb-1 machine models from any entry state satisfying AAPCS64 / AAPCS, return properly, leave exactly the Nat-level contract, write nothing else, hence equal the portable limb models (`_eq_portable`) and the x86-64 routines limb for limb (`_agrees_x86`, `_agrees_aarch64`) - "
+                         "the back ends are proved, not only sampled, to compute the same function.")
+TEXT["C03"]["note"] = ("ARM: instruction semantics transcribed from the Arm ARM and NOT validated against hardware (none available); the Thumb-1 parse is not cross-checked by an assembler (llvm-mc rejects the divided syntax); the ARMv6-M multiply / square / Montgomery routines (21k straight-line instructions) have the model and the judge tie but no theorem.  "
+                       "x86: the machine model's instruction semantics are validated against the host CPU on every run through the judge, asm2lean is cross-checked against GNU as/objdump.  Side conditions of the assembly theorems are the C++ contract's (operands < p, res disjoint from p on x86, multiply/square output disjoint from the inputs on x86, 2p <= 2^384, objects off the stack save area).")
